@@ -102,6 +102,7 @@ type xferResult struct {
 	DrainAt    time.Duration
 	HealAt     time.Duration
 	DoneAt     time.Duration
+	CloseAt    time.Duration // when the teardown began (reads after that were only released by it)
 	BufAtDrain [2]int
 }
 
@@ -218,7 +219,7 @@ func xferScenario(spec *xferSpec, res *xferResult) *Scenario {
 							return
 						}
 						mu.Lock()
-						res.Read[sid] = append(res.Read[sid], rmsg{Data: string(buf[:n]), PPI: ppi})
+						res.Read[sid] = append(res.Read[sid], rmsg{Data: string(buf[:n]), PPI: ppi, At: m.S.Now()})
 						mu.Unlock()
 						m.Logf(fmt.Sprintf("read sid=%d", sid), "n=%d ppi=%d", n, ppi)
 					}
@@ -276,7 +277,7 @@ func xferScenario(spec *xferSpec, res *xferResult) *Scenario {
 									return
 								}
 								mu.Lock()
-								res.Read[sid] = append(res.Read[sid], rmsg{Data: string(buf[:n]), PPI: ppi})
+								res.Read[sid] = append(res.Read[sid], rmsg{Data: string(buf[:n]), PPI: ppi, At: m.S.Now()})
 								mu.Unlock()
 								m.Logf(fmt.Sprintf("read sid=%d", sid), "n=%d ppi=%d", n, ppi)
 							}
@@ -415,6 +416,7 @@ func xferScenario(spec *xferSpec, res *xferResult) *Scenario {
 			if spec.BeforeClose != nil {
 				spec.BeforeClose(m, res)
 			}
+			res.CloseAt = m.S.Now()
 			m.CloseBoth()
 			res.DoneAt = m.S.Now()
 			m.Join(acceptors...)
@@ -638,4 +640,22 @@ func deliverySummary(spec *xferSpec, r *xferResult) string {
 	}
 	sort.Strings(parts)
 	return strings.Join(parts, " ")
+}
+
+// lateReads: every reader of these scenarios is parked in ReadSCTP from the start, so a
+// message is read in the instant it becomes deliverable.  A message that is handed over only
+// when the association is torn down (Close wakes every reader, which then drains the queue)
+// had been sitting deliverable in the reassembly queue without its reader being woken.
+func lateReads(m *Sim, spec *xferSpec, r *xferResult) {
+	if r.CloseAt == 0 || !r.Drained || spec.PauseReader > 0 {
+		return
+	}
+	for _, st := range spec.Streams {
+		for i, rm := range r.Read[st.SID] {
+			if rm.At >= r.CloseAt && rm.At != 0 {
+				m.Failf("delivery.late", "stream %d: message %d (%d bytes) was handed to the reader blocked in ReadSCTP only at %v, when the association was closed (it had been complete and deliverable since before %v)", st.SID, i, len(rm.Data), rm.At, r.CloseAt)
+				break
+			}
+		}
+	}
 }
